@@ -37,6 +37,10 @@ MUTATIONS = {
     "abs-coefficient": (SYM, "sympy.Float(stoich_value) * rxns[rxn]", "sympy.Float(abs(stoich_value)) * rxns[rxn]"),
     "no-accumulate": (SYM, "eqs.get(cpd, sympy.Float(0.0)) + sympy.Float(stoich_value) * rxns[rxn]", "sympy.Float(stoich_value) * rxns[rxn]"),
     "dyn-no-coefficient": (SYM, "eqs[cpd] = eqs.get(cpd, sympy.Float(0.0)) + coef * rxns[rxn]", "eqs[cpd] = eqs.get(cpd, sympy.Float(0.0)) + rxns[rxn]"),
+    # surrogates (the three below are what the surrogate-containing models of the generator are for)
+    "merge-surrogate-symbols": (SYM, "] = variables | parameters | data  # type: ignore", "] = variables | parameters | data | surrogates  # type: ignore"),
+    "skip-unknown-flux": (SYM, "        for rxn, stoich_value in stoich.items():\n", "        for rxn, stoich_value in stoich.items():\n            if rxn not in rxns:\n                continue\n"),
+    "silent-fallback": (SIM, "                _LOGGER.warning(str(e), stacklevel=2)\n\n        y0 = self.y0", "                del e\n\n        y0 = self.y0"),
     "dyn-overwrite": (SYM, "eqs[cpd] = eqs.get(cpd, sympy.Float(0.0)) + coef * rxns[rxn]", "eqs[cpd] = coef * rxns[rxn]"),
 }
 
